@@ -120,11 +120,17 @@ def iter1(eng, out):
                     none_targets.add(tb)
             if not none_targets and [v for v, _ in t["targets"]] == ["1"]:
                 none_targets.add(t["otherwise"])
+        # a loop whose body has no effect at all is a pure search: leaving it early is order-independent
+        EFFECTS = ("set", "tblwrite", "moveout", "free", "user", "handle_drop", "indirect", "vec", "alloc", "store", "handle_new", "forget", "fill", "extcall")
+        effectful = any(ek in EFFECTS and eb in body for (ek, eb, esi) in eng.event_index)
         for u in body:
             for ekind, v in g.succs(u, unwind=False):
                 if v in body or v not in ret_ok:
                     continue
                 if u == sw and v in none_targets:
+                    continue
+                if not effectful:
+                    out.obl("ITER-1", "pure-search-exit", (eng.name, u))
                     continue
                 out.violate("ITER-1", "early-exit:%s" % kind, "a loop over a %s can stop before visiting every element (exit at %s:%s); which elements are processed then depends on hash/table order" % (
                     desc, g.blocks[u]["term"].get("file"), g.blocks[u]["term"].get("line")), where_of(g, u), entry=eng.name)
